@@ -638,6 +638,10 @@ pub struct EncInfo {
     pub id0: Vec<u8>,
     /// object number of the encryption dictionary when it is an indirect object
     pub encrypt_obj: Option<u32>,
+    /// diagnostic switch (default false): pretend that no stream names its own /Crypt filter,
+    /// i.e. decrypt every stream with /StmF. Lets a check ask "would the data have been right
+    /// if the /Crypt entry were not there?"
+    pub ignore_stream_crypt_filters: bool,
 }
 
 impl EncInfo {
@@ -739,6 +743,7 @@ pub fn read_enc_info(f: &PdfFile) -> Result<EncInfo, String> {
         filters,
         id0,
         encrypt_obj,
+        ignore_stream_crypt_filters: false,
     })
 }
 
@@ -819,37 +824,39 @@ fn decrypt_strings(o: &Obj, cfm: Cfm, key: &[u8], num: u32, gen: u16, problems: 
     }
 }
 
-/// The crypt filter named by a stream's own /Filter [/Crypt …] (ISO 32000-1 §7.4.10), if it is
-/// the first filter; returns (name, dictionary with the /Crypt filter removed).
-fn explicit_crypt_filter(d: &Dict) -> Option<(Vec<u8>, Dict)> {
+/// The crypt filter a stream names itself through a /Crypt entry of its /Filter (ISO 32000-1
+/// §7.4.10, §7.6.5): returns (position in the filter chain, crypt filter name — /Identity
+/// when no /Name is given —, dictionary with the /Crypt entry removed).
+fn explicit_crypt_filter(d: &Dict) -> Option<(usize, Vec<u8>, Dict)> {
     let filt = d.get("Filter")?;
     let parms = d.get("DecodeParms").or_else(|| d.get("DP"));
-    let (first, rest_f): (&Obj, Vec<Obj>) = match filt {
-        Obj::Name(_) => (filt, vec![]),
-        Obj::Array(a) if !a.is_empty() => (&a[0], a[1..].to_vec()),
+    let filters: Vec<Obj> = match filt {
+        Obj::Name(_) => vec![filt.clone()],
+        Obj::Array(a) => a.clone(),
         _ => return None,
     };
-    if first.as_name() != Some(b"Crypt") {
-        return None;
-    }
-    let (p0, rest_p): (Option<&Obj>, Vec<Obj>) = match parms {
-        Some(Obj::Array(a)) => (a.first(), a.iter().skip(1).cloned().collect()),
-        Some(other) => (Some(other), vec![]),
-        None => (None, vec![]),
+    let pos = filters.iter().position(|f| f.as_name() == Some(b"Crypt"))?;
+    let plist: Vec<Obj> = match parms {
+        Some(Obj::Array(a)) => a.clone(),
+        Some(other) => vec![other.clone()],
+        None => vec![],
     };
-    let name = p0.and_then(|p| p.dict_get("Name")).and_then(|n| n.as_name()).unwrap_or(b"Identity").to_vec();
+    let name = plist.get(pos).and_then(|p| p.dict_get("Name")).and_then(|n| n.as_name()).unwrap_or(b"Identity").to_vec();
     let mut nd = d.clone();
     nd.remove("DP");
+    let rest_f: Vec<Obj> = filters.iter().enumerate().filter(|(i, _)| *i != pos).map(|(_, f)| f.clone()).collect();
     if rest_f.is_empty() {
         nd.remove("Filter");
         nd.remove("DecodeParms");
     } else {
+        let n = filters.len();
         nd.set("Filter", Obj::Array(rest_f));
         if parms.is_some() {
+            let rest_p: Vec<Obj> = (0..n).filter(|i| *i != pos).map(|i| plist.get(i).cloned().unwrap_or(Obj::Null)).collect();
             nd.set("DecodeParms", Obj::Array(rest_p));
         }
     }
-    Some((name, nd))
+    Some((pos, name, nd))
 }
 
 /// Decrypt one indirect object that is stored outside object streams (§7.6.2).
@@ -863,8 +870,15 @@ pub fn decrypt_object(info: &EncInfo, file_key: &[u8], num: u32, gen: u16, o: &O
                 return o.clone();
             }
             let (method, dict) = match explicit_crypt_filter(&s.dict) {
-                Some((name, nd)) => match info.filters.get(&name) {
-                    Some(m) if info.v >= 4 => (*m, nd),
+                // Crypt filters exist from V 4 on (ISO 32000-1 7.6.5); what a /Crypt entry means in
+                // a V 1/2 document is not defined, so it is dropped and the document cipher applies
+                Some((_, _, nd)) if info.v < 4 || info.ignore_stream_crypt_filters => (if ty == Some(b"Metadata") && !info.metadata_encrypted() { Cfm::Identity } else { info.stmf }, nd),
+                Some((pos, name, nd)) => match info.filters.get(&name) {
+                    Some(m) if pos == 0 || *m == Cfm::Identity => (*m, nd),
+                    Some(_) => {
+                        problems.push(format!("object {num} {gen}: a decrypting /Crypt filter that is not the first filter is not supported by the reference"));
+                        (Cfm::Identity, nd)
+                    }
                     _ => {
                         problems.push(format!("object {num} {gen}: /Crypt filter /{} is not defined", String::from_utf8_lossy(&name)));
                         (Cfm::Identity, nd)
@@ -901,7 +915,13 @@ pub struct Unlocked {
 /// once (as part of their containing stream); the encryption dictionary itself and
 /// cross-reference streams are never decrypted.
 pub fn unlock_ex(f: &mut PdfFile, password: &[u8]) -> Result<Unlocked, String> {
-    let info = read_enc_info(f)?;
+    unlock_with(f, password, |_| {})
+}
+
+/// `unlock_ex` with a hook that may adjust the parsed encryption parameters first.
+pub fn unlock_with(f: &mut PdfFile, password: &[u8], tweak: impl FnOnce(&mut EncInfo)) -> Result<Unlocked, String> {
+    let mut info = read_enc_info(f)?;
+    tweak(&mut info);
     let auth = authenticate(&info, password);
     let which = auth.which().ok_or("password is neither the user nor the owner password")?;
     let file_key = auth.key().unwrap().clone();
@@ -1331,4 +1351,400 @@ pub fn plain_file(objects: &[(u32, Obj)], root: u32, info: Option<u32>, xref_str
     fb.info = info.map(|i| (i, 0));
     fb.revisions.push(r);
     fb.build().bytes
+}
+
+// ====================================================================== validation
+
+#[cfg(test)]
+mod tests {
+    use super::*;
+
+    fn hx(s: &str) -> Vec<u8> {
+        let s: Vec<u8> = s.bytes().filter(|c| !c.is_ascii_whitespace()).collect();
+        s.chunks(2).map(|p| u8::from_str_radix(std::str::from_utf8(p).unwrap(), 16).unwrap()).collect()
+    }
+    fn blk(s: &str) -> [u8; 16] {
+        hx(s).try_into().unwrap()
+    }
+
+    #[test]
+    fn fips197_sbox_and_key_expansion() {
+        let t = tables();
+        // Figure 7
+        assert_eq!(t.sbox[0x00], 0x63);
+        assert_eq!(t.sbox[0x53], 0xed);
+        assert_eq!(t.sbox[0xff], 0x16);
+        assert_eq!(t.inv[0x63], 0x00);
+        // Appendix A.1: last round key words w40..w43
+        let a = Aes::new(&hx("2b7e151628aed2a6abf7158809cf4f3c"));
+        assert_eq!(a.round_keys()[10].to_vec(), hx("d014f9a8c9ee2589e13f0cc8b6630ca6"));
+        // Appendix A.2: w48..w51
+        let a = Aes::new(&hx("8e73b0f7da0e6452c810f32b809079e562f8ead2522c6b7b"));
+        assert_eq!(a.round_keys()[12].to_vec(), hx("e98ba06f448c773c8ecc720401002202"));
+        // Appendix A.3: w56..w59
+        let a = Aes::new(&hx("603deb1015ca71be2b73aef0857d77811f352c073b6108d72d9810a30914dff4"));
+        assert_eq!(a.round_keys()[14].to_vec(), hx("fe4890d1e6188d0b046df344706c631e"));
+    }
+
+    #[test]
+    fn fips197_cipher_examples() {
+        // Appendix B
+        let a = Aes::new(&hx("2b7e151628aed2a6abf7158809cf4f3c"));
+        let mut b = blk("3243f6a8885a308d313198a2e0370734");
+        a.encrypt_block(&mut b);
+        assert_eq!(b, blk("3925841d02dc09fbdc118597196a0b32"));
+        a.decrypt_block(&mut b);
+        assert_eq!(b, blk("3243f6a8885a308d313198a2e0370734"));
+        // Appendix C.1, C.2, C.3
+        let pt = "00112233445566778899aabbccddeeff";
+        for (key, ct) in [
+            ("000102030405060708090a0b0c0d0e0f", "69c4e0d86a7b0430d8cdb78070b4c55a"),
+            ("000102030405060708090a0b0c0d0e0f1011121314151617", "dda97ca4864cdfe06eaf70a0ec0d7191"),
+            ("000102030405060708090a0b0c0d0e0f101112131415161718191a1b1c1d1e1f", "8ea2b7ca516745bfeafc49904b496089"),
+        ] {
+            let a = Aes::new(&hx(key));
+            let mut b = blk(pt);
+            a.encrypt_block(&mut b);
+            assert_eq!(b, blk(ct), "key {key}");
+            a.decrypt_block(&mut b);
+            assert_eq!(b, blk(pt), "key {key}");
+        }
+    }
+
+    #[test]
+    fn sp800_38a_cbc() {
+        let pt = hx("6bc1bee22e409f96e93d7e117393172a ae2d8a571e03ac9c9eb76fac45af8e51 30c81c46a35ce411e5fbc1191a0a52ef f69f2445df4f9b17ad2b417be66c3710");
+        let iv = blk("000102030405060708090a0b0c0d0e0f");
+        // F.2.1 / F.2.2
+        let k = hx("2b7e151628aed2a6abf7158809cf4f3c");
+        let ct = hx("7649abac8119b246cee98e9b12e9197d 5086cb9b507219ee95db113a917678b2 73bed6b8e3c1743b7116e69e22229516 3ff1caa1681fac09120eca307586e1a7");
+        assert_eq!(aes_cbc_encrypt_nopad(&k, &iv, &pt), ct);
+        assert_eq!(aes_cbc_decrypt_nopad(&k, &iv, &ct), pt);
+        // F.2.5 / F.2.6
+        let k = hx("603deb1015ca71be2b73aef0857d77811f352c073b6108d72d9810a30914dff4");
+        let ct = hx("f58c4c04d6e5f1ba779eabfb5f7bfbd6 9cfc4e967edb808d679f777bc6702c7d 39f23369a9d9bacfa530e26304231461 b2eb05e2c39be9fcda6c19078c6a9d1b");
+        assert_eq!(aes_cbc_encrypt_nopad(&k, &iv, &pt), ct);
+        assert_eq!(aes_cbc_decrypt_nopad(&k, &iv, &ct), pt);
+    }
+
+    #[test]
+    fn pkcs7() {
+        assert_eq!(pkcs7_pad(b""), vec![16u8; 16]);
+        assert_eq!(pkcs7_pad(&[1u8; 15]).last(), Some(&1));
+        assert_eq!(pkcs7_pad(&[1u8; 16]).len(), 32);
+        for n in 0..70 {
+            let d: Vec<u8> = (0..n as u8).collect();
+            assert_eq!(pkcs7_unpad(&pkcs7_pad(&d)).unwrap(), d);
+            for key in [vec![7u8; 16], vec![9u8; 32]] {
+                let iv = [3u8; 16];
+                let ct = aes_cbc_pkcs7_encrypt(&key, &iv, &d);
+                assert_eq!(ct.len(), (n / 16 + 1) * 16);
+                assert_eq!(aes_cbc_pkcs7_decrypt(&key, &iv, &ct).unwrap(), d);
+            }
+        }
+        assert!(pkcs7_unpad(&[0u8; 16]).is_err());
+        assert!(pkcs7_unpad(&[17u8; 16]).is_err());
+        let mut bad = vec![2u8; 16];
+        bad[14] = 3;
+        assert!(pkcs7_unpad(&bad).is_err());
+    }
+
+    #[test]
+    fn rfc6229_rc4() {
+        let ks = |key: &[u8], n: usize| rc4(key, &vec![0u8; n]);
+        // 40-bit key 0x0102030405
+        let s = ks(&hx("0102030405"), 272);
+        assert_eq!(s[0..16].to_vec(), hx("b2396305f03dc027ccc3524a0a1118a8"));
+        assert_eq!(s[16..32].to_vec(), hx("6982944f18fc82d589c403a47a0d0919"));
+        assert_eq!(s[240..256].to_vec(), hx("28cb1132c96ce286421dcaadb8b69eae"));
+        assert_eq!(s[256..272].to_vec(), hx("1cfcf62b03eddb641d77dfcf7f8d8c93"));
+        // 128-bit key 0x0102…10
+        let s = ks(&hx("0102030405060708090a0b0c0d0e0f10"), 32);
+        assert_eq!(s[0..16].to_vec(), hx("9ac7cc9a609d1ef7b2932899cde41b97"));
+        assert_eq!(s[16..32].to_vec(), hx("5248c4959014126a6e8a84f11d1a9e1c"));
+        // 256-bit key 0x0102…20
+        let s = ks(&hx("0102030405060708090a0b0c0d0e0f101112131415161718191a1b1c1d1e1f20"), 32);
+        assert_eq!(s[0..16].to_vec(), hx("eaa6bd25880bf93d3f5d1e4ca2611d91"));
+        assert_eq!(s[16..32].to_vec(), hx("cfa45c9f7e714b54bdfa80027cb14380"));
+        // 40-bit key 0x833222772a
+        let s = ks(&hx("833222772a"), 16);
+        assert_eq!(s, hx("80ad97bdc973df8a2e879e92a497efda"));
+        // the classic published triples
+        assert_eq!(rc4(b"Key", b"Plaintext"), hx("BBF316E8D940AF0AD3"));
+        assert_eq!(rc4(b"Wiki", b"pedia"), hx("1021BF0420"));
+        assert_eq!(rc4(b"Secret", b"Attack at dawn"), hx("45A01F645FC35B383552544B9BF5"));
+    }
+
+    #[test]
+    fn padding_and_object_key() {
+        assert_eq!(pad_password(b""), PAD);
+        let p = pad_password(b"abc");
+        assert_eq!(&p[..3], b"abc");
+        assert_eq!(&p[3..], &PAD[..29]);
+        let long = [b'x'; 40];
+        assert_eq!(pad_password(&long), [b'x'; 32]);
+        assert_eq!(alg1_object_key(&[0u8; 5], 1, 0, false).len(), 10);
+        assert_eq!(alg1_object_key(&[0u8; 16], 1, 0, true).len(), 16);
+        assert_eq!(alg1_object_key(&[1, 2, 3, 4, 5], 0x010203, 0x0405, false), md5(&[&[1, 2, 3, 4, 5, 3, 2, 1, 5, 4]])[..10].to_vec());
+    }
+
+    // ------------------------------------------------------------ fixtures (qpdf, pypdf)
+
+    fn fixture(name: &str) -> Vec<u8> {
+        let root = std::env::var("VERIF_REPO").unwrap_or_else(|_| "/repo".into());
+        std::fs::read(format!("{root}/oxidize-pdf-core/tests/fixtures/{name}")).unwrap_or_else(|e| panic!("{name}: {e}"))
+    }
+
+    /// content fingerprint of a (decrypted or plaintext) file: decoded page contents and the
+    /// string entries of the Info dictionary
+    fn fingerprint(f: &PdfFile) -> (Vec<Vec<u8>>, Vec<(Vec<u8>, Vec<u8>)>) {
+        let pages = f.pages().expect("pages");
+        let contents: Vec<Vec<u8>> = pages.iter().map(|p| f.page_content(p).expect("page content")).collect();
+        let info = f.resolve_opt(f.trailer.get("Info"));
+        let mut strings: Vec<(Vec<u8>, Vec<u8>)> = info.as_dict().map(|d| d.iter().filter_map(|(k, v)| f.resolve(v).as_str_bytes().map(|s| (k.clone(), s.to_vec()))).collect()).unwrap_or_default();
+        strings.sort();
+        (contents, strings)
+    }
+
+    fn open(name: &str, pw: &[u8]) -> Result<(PdfFile, Unlocked), String> {
+        let mut f = PdfFile::parse(&fixture(name)).map_err(|e| format!("{name}: {e}"))?;
+        let u = unlock_ex(&mut f, pw)?;
+        Ok((f, u))
+    }
+
+    fn load_everything(f: &PdfFile, u: &Unlocked, name: &str) {
+        for n in f.live_objects() {
+            let o = f.get(n);
+            if let Some(s) = o.as_stream() {
+                if s.dict.get("Type").and_then(|t| t.as_name()) != Some(b"XRef") {
+                    match f.stream_data(s) {
+                        Ok(_) => {}
+                        // image codecs are outside the reference; `raw_images` compares those streams undecoded
+                        Err(e) if e.to_string().contains("not supported by the reference") => {}
+                        Err(e) => panic!("{name}: object {n} stream does not decode after decryption: {e}"),
+                    }
+                }
+            }
+        }
+        let p = u.problems.lock().unwrap();
+        assert!(p.is_empty(), "{name}: {p:?}");
+    }
+
+    /// sorted raw data of all streams the reference cannot decode (DCT images …)
+    fn raw_images(f: &PdfFile) -> Vec<Vec<u8>> {
+        let mut v: Vec<Vec<u8>> = Vec::new();
+        for n in f.live_objects() {
+            if let Obj::Stream(s) = f.get(n) {
+                if s.dict.get("Type").and_then(|t| t.as_name()) != Some(b"XRef") && f.stream_data(&s).is_err() {
+                    v.push(s.data.clone());
+                }
+            }
+        }
+        v.sort();
+        v
+    }
+
+    fn check_family(base: &str, cases: &[(&str, &str, &str)], must_contain: Option<&[u8]>) {
+        let bf = PdfFile::parse(&fixture(base)).unwrap();
+        let want = fingerprint(&bf);
+        let want_raw = raw_images(&bf);
+        assert!(!want.0.is_empty());
+        if let Some(m) = must_contain {
+            assert!(want.0.iter().any(|c| crate::file::find_first(c, m, 0).is_some()), "{base} lacks the marker");
+        }
+        for (name, user, owner) in cases {
+            for (pw, role) in [(user, Which::User), (owner, Which::Owner)] {
+                let (f, u) = open(name, pw.as_bytes()).unwrap_or_else(|e| panic!("{name} with {role:?} password {pw:?}: {e}"));
+                assert_eq!(u.which, role, "{name} {pw:?}");
+                load_everything(&f, &u, name);
+                let got = fingerprint(&f);
+                assert_eq!(got.0.len(), want.0.len(), "{name}: page count");
+                for (i, (g, w)) in got.0.iter().zip(&want.0).enumerate() {
+                    assert!(g == w, "{name} ({role:?}): page {i} content differs from {base}");
+                }
+                assert_eq!(got.1, want.1, "{name} ({role:?}): Info strings differ from {base}");
+                assert!(raw_images(&f) == want_raw, "{name} ({role:?}): undecodable (image) stream data differs from {base}");
+            }
+            for wrong in ["", "wrong", "userpw ", "Userpw"] {
+                if wrong != *user && wrong != *owner {
+                    assert!(open(name, wrong.as_bytes()).is_err(), "{name}: password {wrong:?} accepted");
+                }
+            }
+        }
+    }
+
+    #[test]
+    fn fixtures_qpdf_interop_matrix() {
+        let (u, o) = ("userpw", "ownerpw");
+        let (uu, uo) = ("contraseña_ñ", "dueño_café");
+        check_family(
+            "interop_base.pdf",
+            &[
+                ("interop_qpdf_rc4-40_user.pdf", u, o),
+                ("interop_qpdf_rc4-128_user.pdf", u, o),
+                ("interop_qpdf_aes128_user.pdf", u, o),
+                ("interop_qpdf_aes256r5_user.pdf", u, o),
+                ("interop_qpdf_aes256r6_user.pdf", u, o),
+                ("interop_qpdf_rc4-40_empty.pdf", "", o),
+                ("interop_qpdf_rc4-128_empty.pdf", "", o),
+                ("interop_qpdf_aes128_empty.pdf", "", o),
+                ("interop_qpdf_aes256r5_empty.pdf", "", o),
+                ("interop_qpdf_aes256r6_empty.pdf", "", o),
+                ("interop_qpdf_aes256r5_unicode.pdf", uu, uo),
+                ("interop_qpdf_aes256r6_unicode.pdf", uu, uo),
+                ("interop_qpdf_rc4-128_ctm_empty.pdf", "", o),
+                ("interop_qpdf_rc4-128_ctm_user.pdf", u, o),
+                ("interop_qpdf_aes128_ctm_empty.pdf", "", o),
+                ("interop_qpdf_aes128_ctm_user.pdf", u, o),
+            ],
+            Some(b"OXIDIZE_INTEROP_FIXTURE_MARKER_V1"),
+        );
+    }
+
+    #[test]
+    fn fixtures_qpdf_cold_email() {
+        check_family(
+            "Cold_Email_Hacks.pdf",
+            &[
+                ("encrypted_rc4_40bit.pdf", "user", "owner"),
+                ("encrypted_rc4_128bit.pdf", "test123", "owner123"),
+                ("encrypted_restricted.pdf", "userpass", "ownerpass"),
+                ("encrypted_aes256_r5_user.pdf", "user5", "owner5"),
+                ("encrypted_aes256_r5_empty_user.pdf", "", "owner5_empty"),
+                ("encrypted_aes256_r5_unicode.pdf", "unicode_contraseña", "owner5_unicode"),
+                ("encrypted_aes256_r6_user.pdf", "user6", "owner6"),
+                ("encrypted_aes256_r6_empty_user.pdf", "", "owner6_empty"),
+                ("encrypted_aes256_r6_unicode.pdf", "café🔒", "owner6_unicode"),
+            ],
+            None,
+        );
+    }
+
+    #[test]
+    fn fixtures_pypdf() {
+        // pypdf turns a `str` password into bytes with latin-1 when that is possible and UTF-8
+        // otherwise (pypdf/_encryption.py), for every revision; "Contraseña123" is therefore the
+        // latin-1 byte string in that fixture. The algorithms are the same, only the bytes differ.
+        let latin1 = |s: &str| -> Vec<u8> { s.chars().map(|c| c as u32 as u8).collect() };
+        for (name, pw) in [("encrypted_pypdf_aes256_user.pdf", "pypdf_test"), ("encrypted_pypdf_aes256_empty.pdf", ""), ("encrypted_pypdf_aes256_spanish.pdf", "Contraseña123")] {
+            let owner = format!("{pw}_owner");
+            for (p, role) in [(pw.to_string(), Which::User), (owner.clone(), Which::Owner)] {
+                let (f, u) = open(name, &latin1(&p)).unwrap_or_else(|e| panic!("{name} {p:?}: {e}"));
+                assert_eq!(u.which, role, "{name}");
+                assert!(u.info.r >= 5, "{name}: R{}", u.info.r);
+                load_everything(&f, &u, name);
+                assert_eq!(f.pages().unwrap().len(), 1);
+                let info = f.resolve_opt(f.trailer.get("Info"));
+                let prod = f.resolve_opt(info.dict_get("Producer"));
+                let prod = prod.as_str_bytes().unwrap_or_default().to_vec();
+                assert!(crate::textstr::decode_text_string(&prod).to_lowercase().contains("pypdf"), "{name}: /Producer decrypts to {:?}", String::from_utf8_lossy(&prod));
+            }
+            assert!(open(name, b"nope").is_err());
+        }
+    }
+
+    // ------------------------------------------------------------ the writer against the reader
+
+    pub(crate) fn sample_objects() -> Vec<(u32, Obj)> {
+        let mut objs = crate::builder::simple_doc_objects(2, &|i| format!("BT /F1 12 Tf 72 720 Td (Page {} \\(x\\)) Tj ET", i + 1).into_bytes());
+        // compressed content on page 2
+        let raw = b"BT /F1 12 Tf 72 700 Td (compressed) Tj ET".to_vec();
+        objs[5].1 = Obj::stream(vec![("Filter", Obj::name("FlateDecode"))], crate::filters::flate_encode(&raw));
+        objs.push((7, Obj::dict(vec![("Title", Obj::str(b"T (1)\r\n\\")), ("Author", Obj::str(b"\xfe\xff\x00A\x00\xf1")), ("Empty", Obj::str(b"")), ("Arr", Obj::Array(vec![Obj::str(b"in array"), Obj::dict(vec![("K", Obj::str(b"nested"))])]))])));
+        objs.push((8, Obj::stream(vec![("Type", Obj::name("Metadata")), ("Subtype", Obj::name("XML"))], b"<x:xmpmeta>meta</x:xmpmeta>".to_vec())));
+        if let Obj::Dict(d) = &mut objs[0].1 {
+            d.set("Metadata", Obj::Ref(8, 0));
+        }
+        objs
+    }
+
+    #[test]
+    fn writer_roundtrip_all_schemes() {
+        let objs = sample_objects();
+        for scheme in Scheme::ALL {
+            for (xs, os) in [(false, false), (true, false), (true, true)] {
+                for em in [true, false] {
+                    for indirect in [true, false] {
+                        for ident in [false, true] {
+                            let mut s = EncSettings::new(scheme, b"us\xe9r", b"owner-password-that-is-longer-than-32-bytes!");
+                            s.info = Some(7);
+                            s.xref_stream = xs;
+                            s.objstm = os;
+                            s.encrypt_metadata = em;
+                            s.encrypt_dict_indirect = indirect;
+                            s.metadata_identity_filter = ident;
+                            s.p = -3904;
+                            if scheme == Scheme::R3 {
+                                s.key_bits = 56;
+                            }
+                            let tag = format!("{} xs={xs} os={os} em={em} indirect={indirect} ident={ident}", scheme.name());
+                            let enc = encrypt_file_ex(&objs, &s);
+                            // the file is structurally valid as it stands when nothing is packed
+                            if !os {
+                                let issues = crate::file::validate(&enc.bytes);
+                                assert!(issues.is_empty(), "{tag}: {issues:?}");
+                            }
+                            // nothing of the plaintext is visible, except cleartext metadata
+                            let meta_clear = !em && scheme.revision() >= 4;
+                            assert_eq!(crate::file::find_first(&enc.bytes, b"xmpmeta", 0).is_some(), meta_clear, "{tag}");
+                            assert!(crate::file::find_first(&enc.bytes, b"nested", 0).is_none(), "{tag}");
+                            for (pw, role) in [(&s.user_pw, Which::User), (&s.owner_pw, Which::Owner)] {
+                                let mut f = PdfFile::parse(&enc.bytes).unwrap();
+                                let u = unlock_ex(&mut f, pw).unwrap_or_else(|e| panic!("{tag}: {e}"));
+                                assert_eq!(u.which, role, "{tag}");
+                                assert_eq!(u.file_key, enc.file_key, "{tag}");
+                                for (n, o) in &objs {
+                                    let got = f.get(*n);
+                                    match (o, &got) {
+                                        (Obj::Stream(a), Obj::Stream(b)) => {
+                                            assert_eq!(f.stream_data(a).unwrap(), f.stream_data(b).unwrap(), "{tag}: object {n}");
+                                        }
+                                        _ => assert!(got.same(o), "{tag}: object {n}: {got:?} vs {o:?}"),
+                                    }
+                                }
+                                assert!(u.problems.lock().unwrap().is_empty(), "{tag}");
+                            }
+                            let mut f = PdfFile::parse(&enc.bytes).unwrap();
+                            assert!(unlock(&mut f, b"other").is_err(), "{tag}");
+                        }
+                    }
+                }
+            }
+        }
+    }
+
+    #[test]
+    fn plain_file_is_valid() {
+        let objs = sample_objects();
+        for (xs, os) in [(false, false), (true, false), (true, true)] {
+            let b = plain_file(&objs, 1, Some(7), xs, os);
+            let issues = crate::file::validate(&b);
+            assert!(issues.is_empty(), "{issues:?}");
+        }
+    }
+
+    #[test]
+    fn r6_hash_properties() {
+        // deterministic, depends on every input, 32 bytes; R5 is plain SHA-256
+        let a = alg2b_hash(b"pw", b"12345678", &[]);
+        assert_eq!(a, alg2b_hash(b"pw", b"12345678", &[]));
+        assert_ne!(a, alg2b_hash(b"pw", b"12345679", &[]));
+        assert_ne!(a, alg2b_hash(b"pW", b"12345678", &[]));
+        assert_ne!(a, alg2b_hash(b"pw", b"12345678", &[0u8; 48]));
+        assert_eq!(hash_r56(5, b"pw", b"12345678", b"u"), sha256(&[b"pw12345678u"]));
+        // 127-byte limit
+        let long = vec![b'a'; 200];
+        let fk = [5u8; 32];
+        let (u, ue) = alg8_u_ue(6, &long, &fk, &[1; 8], &[2; 8]);
+        assert!(alg11_user_ok(6, &long[..127], &u));
+        assert!(!alg11_user_ok(6, &long[..126], &u));
+        let (o, oe) = alg9_o_oe(6, b"own", &fk, &[3; 8], &[4; 8], &u);
+        assert_eq!(alg2a_file_key(6, b"own", &o, &u, &oe, &ue), Some((Which::Owner, fk)));
+        assert_eq!(alg2a_file_key(6, &long, &o, &u, &oe, &ue), Some((Which::User, fk)));
+        assert_eq!(alg2a_file_key(6, b"x", &o, &u, &oe, &ue), None);
+        let perms = alg10_perms(-44, false, &fk, [9; 4]);
+        assert!(alg13_perms_check(&perms, &fk, -44, false).is_ok());
+        assert!(alg13_perms_check(&perms, &fk, -44, true).is_err());
+        assert!(alg13_perms_check(&perms, &fk, -48, false).is_err());
+    }
 }
